@@ -1,0 +1,84 @@
+//! C06: named pause points between the snapshot acquisitions of a read transaction
+//! (`QueryServer::read` and the backend `read()` functions below it) and between the
+//! publication steps of `QueryServerWriteTransaction::commit` (and the commits below it).
+//!
+//! A pause point calls a THREAD-LOCAL callback with the point's id. Without a callback
+//! (the default, and always the case outside the C06 harness) a pause point does nothing,
+//! so the hooks are behaviour neutral. The harness installs a callback on the reader's and
+//! on the writer's thread that blocks until a scheduler lets the thread continue, which
+//! makes a chosen interleaving of the two step lists happen for real.
+
+use std::cell::RefCell;
+
+type PauseFn = Box<dyn FnMut(u32)>;
+
+thread_local! {
+    static PAUSE: RefCell<Option<PauseFn>> = const { RefCell::new(None) };
+}
+
+/// Install (or remove) this thread's pause callback.
+pub fn set_pause(f: Option<PauseFn>) {
+    PAUSE.with(|p| *p.borrow_mut() = f);
+}
+
+/// A pause point: the step named `id` is about to run on this thread.
+#[inline]
+pub(crate) fn pause(id: u32) {
+    PAUSE.with(|p| {
+        if let Ok(mut g) = p.try_borrow_mut() {
+            if let Some(f) = g.as_mut() {
+                f(id)
+            }
+        }
+    });
+}
+
+// ---- reader: QueryServer::read -------------------------------------------------------
+/// before `self.schema.read()`
+pub const R_SCHEMA: u32 = 1;
+/// before `self.cid_max.read()`
+pub const R_CID: u32 = 2;
+/// before `self.be.read()` (first thing it does: `entry_cache.read()`)
+pub const R_BE: u32 = 3;
+/// IdlArcSqlite::read, before `self.db.read()` (BEGIN DEFERRED TRANSACTION)
+pub const R_DB: u32 = 4;
+/// IdlArcSqlite::read, before `idl_cache.read()` (then name_cache, idx_exists_cache, allids)
+pub const R_IDL: u32 = 5;
+/// IdlArcSqlite::read, before it returns (then Backend::read takes idxmeta, ruv)
+pub const R_BE_TAIL: u32 = 6;
+/// QueryServer::read, before the struct literal (d_info, system_config, feature_config, ...)
+pub const R_REST: u32 = 7;
+/// AccessControls::read
+pub const R_ACP: u32 = 8;
+/// KeyProviders::read (then resolve_filter_cache.read())
+pub const R_KP: u32 = 9;
+
+// ---- writer: QueryServerWriteTransaction::commit --------------------------------------
+/// after `self.reload()`, before `be_txn.set_db_ts_max`
+pub const W_DBTS: u32 = 101;
+/// before `cid.commit()`
+pub const W_CID: u32 = 102;
+/// before the resolve filter cache is cleared / committed
+pub const W_RFC: u32 = 103;
+/// before `schema.commit()`
+pub const W_SCHEMA: u32 = 104;
+/// end of SchemaWriteTransaction::commit (then d_info, system_config, feature_config, phase, dyngroup_cache)
+pub const W_DINFO: u32 = 105;
+/// KeyProvidersWriteTransaction::commit
+pub const W_KP: u32 = 106;
+/// AccessControlsWriteTransaction::commit
+pub const W_ACP: u32 = 107;
+/// BackendWriteTransaction::commit, before `write_db_ruv` (then the cache flush to SQLite)
+pub const W_BE: u32 = 108;
+/// IdlArcSqliteWriteTransaction::commit, before `db.commit()` (COMMIT TRANSACTION)
+pub const W_SQL: u32 = 109;
+/// before `op_ts_max.commit()` (then name_cache)
+pub const W_OPTS: u32 = 110;
+/// before `idx_exists_cache.commit()` (then idl_cache, allids, maxid, keyhandles)
+pub const W_IDL: u32 = 111;
+/// before `entry_cache.commit()`
+pub const W_ENTRY: u32 = 112;
+/// BackendWriteTransaction::commit, before `ruv.commit()`
+pub const W_RUV: u32 = 113;
+/// before `idxmeta_wr.commit()`
+pub const W_IDXMETA: u32 = 114;
